@@ -15,8 +15,11 @@ def micro(x):
 
 
 class RngProxy:
-    def __init__(self, inner, log):
-        self._inner, self._log = inner, log
+    """Logs every draw.  With `tails` (a random.Random) it also plays the part of chance: now and then a normal draw comes out four to nine
+    standard deviations below its mean - a value the real source produces too, only once in tens of thousands of draws."""
+
+    def __init__(self, inner, log, tails=None):
+        self._inner, self._log, self._tails = inner, log, tails
 
     def choice(self, *args, **kw):
         r = self._inner.choice(*args, **kw)
@@ -29,6 +32,8 @@ class RngProxy:
         r = self._inner.normal(*args, **kw)
         loc = kw.get("loc", args[0] if len(args) > 0 else 0.0)
         scale = kw.get("scale", args[1] if len(args) > 1 else 1.0)
+        if self._tails is not None and self._tails.random() < 0.04 and float(scale) > 0:
+            r = type(r)(float(loc) - self._tails.choice([4.2, 5.0, 6.5, 9.0]) * float(scale))          # the draw itself was made (the stream advances as usual)
         fr = F(float(r))
         self._log.append({"m": "normal", "a": [micro(loc), micro(scale)], "r": [math.trunc(fr), math.floor(fr * 1000)]})
         return r
@@ -65,7 +70,7 @@ def run_case(seed, tid, marathon=False):
         params = parse_args_with_defaults(dict(params, ticks_per_second=tps, waiting_seconds_mean=wsm, num_pipelines=64, num_operators=1))
     gen = WorkloadGenerator(**params)
     log = []
-    gen.rng = RngProxy(gen.rng, log)
+    gen.rng = RngProxy(gen.rng, log, tails=random.Random(seed ^ 0x7A11) if (tid % 5 == 2 and not marathon) else None)
     events, stray = [], 0
     greedy, hoard = (tid % 4 == 1), []
     for t in range(nticks):
